@@ -83,6 +83,11 @@ theorem step_inv (rows₀ : List α) (s : State α) (acc : List α) (op : Op α)
   | setArraysize n => simp [step, Inv, fetched, hacc, hpos]; exact hrows
   | observe k => simp [step, Inv, fetched, hacc, hpos]; exact hrows
   | append r => simp [step, Inv, fetched, hacc, hpos]
+  | reject st d r =>
+    refine ⟨by simp [step, fetched, hacc], by simpa [step] using hpos, ?_⟩
+    intro hv
+    simp only [step, Bool.and_eq_true] at hv
+    exact hrows hv.1
 
 theorem run_inv (rows₀ : List α) (ops : List (Op α)) (s : State α) (acc : List α)
     (h : Inv rows₀ s acc) :
@@ -218,6 +223,25 @@ theorem gen_rows_iterator :
   · intro p m; unfold Gen.Cursor.limitReached; omega
   · intro p; unfold Gen.Cursor.processedAfter; omega
 
+/-- A completing `append` on a frame whose rows are not a list (a lazily backed frame: `materialize()` has
+just run the iterator the cursor *is* to its end) drops the cursor, whatever the schema and the byte total. -/
+theorem gen_append_drops_cursor_of_lazy_frame (schemaRel nbytesTracked : Bool) :
+    Gen.Cursor.appendDropsCursor false schemaRel nbytesTracked = true := by
+  cases schemaRel <;> cases nbytesTracked <;> decide
+
+/-- **`append` can be left by an exception only in a safe state.**  `Gen.Cursor.appendPoints` is `append`
+statement by statement as the working tree has it: every statement and test that calls something (schema
+validation, the row factory, `nbytes()`, …), with what has been executed when it starts.  At every one of
+them, for every kind of frame: if the row has been stored the cursor has been dropped (no stale view), and
+if `materialize()` has run the iterator behind a lazily backed frame to its end — outside the fetch calls,
+so the cursor has nothing left to deliver — the cursor has been dropped too (the fetch calls refuse, they
+do not report exhaustion over rows that were never delivered). -/
+theorem gen_rejected_append_safe :
+    ∀ p ∈ Gen.Cursor.appendPoints, ∀ l r n,
+      (p.stored l r n = true → p.dropped l r n = true) ∧ (p.materialized false r n = true → p.dropped false r n = true) := by
+  simp only [Bool.forall_bool]
+  decide
+
 theorem gen_facts : GenFacts :=
   { size := gen_fetch_size
     guardOne := fun b => (gen_guards b).1
@@ -227,7 +251,9 @@ theorem gen_facts : GenFacts :=
     appendInv := gen_append_invalidates
     skips := gen_rows_iterator.1
     limit := gen_rows_iterator.2.1
-    bump := gen_rows_iterator.2.2 }
+    bump := gen_rows_iterator.2.2
+    appendLazy := gen_append_drops_cursor_of_lazy_frame
+    rejectSafe := gen_rejected_append_safe }
 
 /-! ### the fetch methods translated statement by statement (`Gen.CursorFns`, harness/pystmt.py)
 
@@ -307,7 +333,8 @@ theorem sim_init_lazy (d : Nat) (tables : List (List α)) (m : Option Nat) (rel 
 ways of construction, both kinds of schema and *every* history (fetches, arraysize changes, observers
 of every kind, appends) the outputs are those of the spec machine. -/
 theorem eager_refines_spec (d : Nat) (rows : List α) (dicts rel : Bool) (ops : List (Op α)) :
-    (Impl.run (Impl.initEager d rows dicts rel) ops).2 = (run (init d rows) ops).2 :=
+    (Impl.run (Impl.initEager d rows dicts rel) ops).2
+      = (run (init d rows) (Impl.annot (Impl.initEager d rows dicts rel) ops)).2 :=
   (run_sim gen_facts ops _ _ (sim_init_eager d rows dicts rel) (Or.inl (by simp [Impl.initEager, Backing.store]))).1
 
 /-- **Lazily backed frames obey the same contract.**  For every list of tables (empty ones at the
@@ -315,7 +342,8 @@ start, in the middle, at the end), every `max_size`, and every history that read
 the cursor, the outputs are those of the spec machine over the concatenated rows. -/
 theorem lazy_refines_spec (d : Nat) (tables : List (List α)) (m : Option Nat) (rel : Bool) (ops : List (Op α))
     (hops : ∀ op ∈ ops, LazyOk op = true) :
-    (Impl.run (Impl.initLazy d tables m rel) ops).2 = (run (init d (chunkRows tables m)) ops).2 :=
+    (Impl.run (Impl.initLazy d tables m rel) ops).2
+      = (run (init d (chunkRows tables m)) (Impl.annot (Impl.initLazy d tables m rel) ops)).2 :=
   (run_sim gen_facts ops _ _ (sim_init_lazy d tables m rel) (Or.inr hops)).1
 
 /-- The contract on the code machine, materialised frames: what the fetch calls of any history returned,
@@ -323,7 +351,7 @@ concatenated, is a prefix of the rows. -/
 theorem eager_delivers_prefix (d : Nat) (rows : List α) (dicts rel : Bool) (ops : List (Op α)) :
     ∃ n, n ≤ rows.length ∧ delivered (Impl.run (Impl.initEager d rows dicts rel) ops).2 = rows.take n := by
   rw [eager_refines_spec]
-  exact ⟨_, (fetched_is_prefix d rows ops).2, (fetched_is_prefix d rows ops).1⟩
+  exact ⟨_, (fetched_is_prefix d rows _).2, (fetched_is_prefix d rows _).1⟩
 
 /-- …and lazily backed frames read through the cursor: a prefix of the concatenated tables. -/
 theorem lazy_delivers_prefix (d : Nat) (tables : List (List α)) (m : Option Nat) (rel : Bool) (ops : List (Op α))
@@ -331,7 +359,7 @@ theorem lazy_delivers_prefix (d : Nat) (tables : List (List α)) (m : Option Nat
     ∃ n, n ≤ (chunkRows tables m).length ∧
       delivered (Impl.run (Impl.initLazy d tables m rel) ops).2 = (chunkRows tables m).take n := by
   rw [lazy_refines_spec d tables m rel ops hops]
-  exact ⟨_, (fetched_is_prefix d _ ops).2, (fetched_is_prefix d _ ops).1⟩
+  exact ⟨_, (fetched_is_prefix d _ _).2, (fetched_is_prefix d _ _).1⟩
 
 /-- **Exhaustion of a lazily backed frame is permanent.**  After any cursor-only history `pre`, if
 `fetchone` answers `None` then no call of any later cursor-only history `post` delivers a row. -/
@@ -345,7 +373,7 @@ theorem lazy_exhaustion_permanent (d : Nat) (tables : List (List α)) (m : Optio
   have h3 := run_sim gen_facts post _ _ h2.2 (Or.inr hpost)
   rw [h3.1]
   rw [h2.1] at hnone
-  exact (none_is_final _ hnone post).2
+  exact (none_is_final _ hnone _).2
 
 /-- The same for a materialised frame, whatever the later history contains (observers, appends). -/
 theorem eager_exhaustion_permanent (d : Nat) (rows : List α) (dicts rel : Bool) (pre post : List (Op α))
@@ -365,7 +393,133 @@ theorem eager_exhaustion_permanent (d : Nat) (rows : List α) (dicts rel : Bool)
   have h3 := run_sim gen_facts post _ _ h2.2 (Or.inl (allowed_step _ _ (hE pre) gen_facts))
   rw [h3.1]
   rw [h2.1] at hnone
-  exact (none_is_final _ hnone post).2
+  exact (none_is_final _ hnone _).2
+
+/-! ### operations that fail part-way: rejected appends interleaved with fetches -/
+
+/-- On the spec machine a rejected append adds no row and does not move the cursor; at most the fetch
+calls refuse afterwards. -/
+theorem rejected_append_changes_nothing_but_validity (s : State α) (st : Nat) (d : Bool) (r : α) :
+    (step s (.reject st d r)).1.rows = s.rows ∧ (step s (.reject st d r)).1.pos = s.pos ∧
+    (step s (.reject st d r)).1.arraysize = s.arraysize ∧ (step s (.reject st d r)).2 = .unit ∧
+    ((step s (.reject st d r)).1.valid = true → s.valid = true) := by
+  refine ⟨rfl, rfl, rfl, rfl, ?_⟩
+  intro h
+  simp only [step, Bool.and_eq_true] at h
+  exact h.1
+
+/-- **A fetch call never misreports where the cursor is** (spec machine).  After *any* history — fetches,
+observers, arraysize changes, appends, rejected appends — a fetch call either refuses or answers from
+exactly the first row that has not been delivered yet: `fetchone` gives that row, and `None` only when every
+row has been delivered; `fetchall` gives all the rows not delivered yet; `fetchmany(k)` the first
+`min(k, remaining)` of them. -/
+theorem fetch_answers_from_the_first_undelivered_row (d : Nat) (rows : List α) (ops : List (Op α)) (k : Option Nat) :
+    let s := (run (init d rows) ops).1
+    let n := (delivered (run (init d rows) ops).2).length
+    ((step s .fetchone).2 = .err ∨ (step s .fetchone).2 = .one rows[n]?) ∧
+    ((step s .fetchall).2 = .err ∨ (step s .fetchall).2 = .many (rows.drop n)) ∧
+    ((step s (.fetchmany k)).2 = .err ∨ (step s (.fetchmany k)).2 = .many ((rows.drop n).take (k.getD s.arraysize))) := by
+  intro s n
+  have h := run_inv rows ops (init d rows) [] (by simp [Inv, init])
+  obtain ⟨hacc, hpos, hrows⟩ := h
+  have hn : n = s.pos := by
+    show (delivered (run (init d rows) ops).2).length = _
+    simp only [List.nil_append] at hacc
+    rw [hacc, List.length_take]
+    exact Nat.min_eq_left hpos
+  by_cases hv : s.valid = true
+  · have hr := hrows hv
+    refine ⟨Or.inr ?_, Or.inr ?_, Or.inr ?_⟩
+    · rw [hn, ← hr]
+      simp only [step, hv, if_true]
+      cases hg : s.rows[s.pos]? <;> rfl
+    · rw [hn, ← hr]; simp [step, hv]; rfl
+    · rw [hn, ← hr]; simp [step, hv]; rfl
+  · refine ⟨Or.inl ?_, Or.inl ?_, Or.inl ?_⟩ <;> simp [step, hv]
+
+/-- **The contract holds across rejected appends — materialised frames.**  Whatever the history — rejected
+appends (left at any statement of `append`) before the first fetch, between fetches, after exhaustion,
+mixed with observers, arraysize changes and appends that complete — the next fetch call either refuses or
+answers from exactly the first row not delivered yet; in particular `fetchone` gives `None`, and
+`fetchall` an empty list, only when every row of the frame has been delivered. -/
+theorem eager_contract_across_rejected_appends (d : Nat) (rows : List α) (dicts rel : Bool) (ops : List (Op α)) :
+    let f := (Impl.run (Impl.initEager d rows dicts rel) ops).1
+    let n := (delivered (Impl.run (Impl.initEager d rows dicts rel) ops).2).length
+    ((Impl.step f .fetchone).2 = .err ∨ (Impl.step f .fetchone).2 = .one rows[n]?) ∧
+    ((Impl.step f .fetchall).2 = .err ∨ (Impl.step f .fetchall).2 = .many (rows.drop n)) := by
+  intro f n
+  have h1 := run_sim gen_facts ops _ _ (sim_init_eager d rows dicts rel) (Or.inl (by simp [Impl.initEager, Backing.store]))
+  have hE : f.backing.store.isSome = true := by
+    show ((Impl.run (Impl.initEager d rows dicts rel) ops).1).backing.store.isSome = true
+    generalize hf : Impl.initEager d rows dicts rel = f0
+    have h0 : f0.backing.store.isSome = true := by rw [← hf]; simp [Impl.initEager, Backing.store]
+    clear hf h1
+    induction ops generalizing f0 with
+    | nil => simpa [Impl.run] using h0
+    | cons op ops ih => simpa [Impl.run] using ih _ (allowed_step f0 op h0 gen_facts)
+  have hone := (step_sim gen_facts _ _ .fetchone h1.2 (Or.inl hE)).1
+  have hall := (step_sim gen_facts _ _ .fetchall h1.2 (Or.inl hE)).1
+  have hs := fetch_answers_from_the_first_undelivered_row d rows (Impl.annot (Impl.initEager d rows dicts rel) ops) none
+  simp only at hs
+  rw [← h1.1] at hs
+  exact ⟨by rw [hone]; exact hs.1, by rw [hall]; exact hs.2.1⟩
+
+/-- **…and lazily backed frames** (the class of C04-w6s3).  A lazily backed frame read through the cursor,
+with appends and *rejected* appends anywhere in the history: `append` starts by materialising — it runs the
+iterator the cursor *is* to its end, outside the fetch calls — so if it is then left by an exception the
+cursor must not survive.  With the statement order the source has now (`gen_rejected_append_safe`) the next
+fetch call either refuses or answers from exactly the first row not delivered yet: `None` / `[]` are
+reported only after the last row. -/
+theorem lazy_contract_across_rejected_appends (d : Nat) (tables : List (List α)) (m : Option Nat) (rel : Bool)
+    (ops : List (Op α)) (hops : ∀ op ∈ ops, LazyOk op = true) :
+    let f := (Impl.run (Impl.initLazy d tables m rel) ops).1
+    let n := (delivered (Impl.run (Impl.initLazy d tables m rel) ops).2).length
+    ((Impl.step f .fetchone).2 = .err ∨ (Impl.step f .fetchone).2 = .one (chunkRows tables m)[n]?) ∧
+    ((Impl.step f .fetchall).2 = .err ∨ (Impl.step f .fetchall).2 = .many ((chunkRows tables m).drop n)) := by
+  intro f n
+  have h1 := run_sim gen_facts ops _ _ (sim_init_lazy d tables m rel) (Or.inr hops)
+  have hone := (step_sim gen_facts _ _ .fetchone h1.2 (Or.inr rfl)).1
+  have hall := (step_sim gen_facts _ _ .fetchall h1.2 (Or.inr rfl)).1
+  have hs := fetch_answers_from_the_first_undelivered_row d (chunkRows tables m) (Impl.annot (Impl.initLazy d tables m rel) ops) none
+  simp only at hs
+  rw [← h1.1] at hs
+  exact ⟨by rw [hone]; exact hs.1, by rw [hall]; exact hs.2.1⟩
+
+/-- What a rejected append does to a lazily backed frame, field by field (the step of the model is what the
+source's statement order says): the arraysize, the schema kind and the byte total are as they were; the
+iterator is run to its end iff `materialize()` precedes the statement that raised; the cursor is dropped iff
+`self._cursor = None` does — and with the source as it is, the second whenever the first. -/
+theorem rejected_append_on_lazy_frame (f : Frame α) (src : Chunks α) (hb : f.backing = .lazy src) (st : Nat) (d : Bool) (r : α) :
+    let f' := (Impl.step f (.reject st d r)).1
+    f'.arraysize = f.arraysize ∧ f'.schemaRel = f.schemaRel ∧ f'.nbytesTracked = f.nbytesTracked ∧
+    (Impl.step f (.reject st d r)).2 = .unit ∧
+    f'.backing = .lazy (if (rejectPoint st).materialized false f.schemaRel f.nbytesTracked then src.drain else src) ∧
+    f'.live = (f.live && !(rejectPoint st).dropped false f.schemaRel f.nbytesTracked) ∧
+    (f'.backing ≠ f.backing → f'.live = false) := by
+  have hP := (rejectPoint_safe gen_facts st false f.schemaRel f.nbytesTracked).2
+  simp only [Impl.step, hb, Impl.rejectDrops]
+  refine ⟨trivial, trivial, trivial, trivial, trivial, trivial, ?_⟩
+  intro hne
+  by_cases hm : (rejectPoint st).materialized false f.schemaRel f.nbytesTracked = true
+  · simp [hP hm]
+  · simp [hm] at hne
+
+/-- Non-vacuity: rejected appends between fetches on the spec machine — one that leaves the cursor alone
+(a materialised frame: the history goes on), one that drops it (a lazily backed frame: refusal, never a
+false `None`). -/
+example :
+    (run (init 2 [10, 20, 30]) [.fetchone, .reject 5 false 0, .fetchone, .fetchall, .reject 9 false 0, .fetchone]).2
+      = [.one (some 10), .unit, .one (some 20), .many [30], .unit, .one none] ∧
+    (run (init 2 [10, 20, 30]) [.fetchone, .reject 5 true 0, .fetchone, .fetchall]).2
+      = [.one (some 10), .unit, .err, .err] := by decide
+
+/-- Why the cursor of a lazily backed frame must not survive a rejected append: a code machine whose
+iterator was run to its end by `materialize()` but whose cursor is still live (what dropping the early
+`self._cursor = None` gives) answers `None` with two rows never delivered. -/
+example :
+    let f : Frame Nat := (Impl.step (Impl.initLazy 100 [[10, 20, 30]] none true) .fetchone).1
+    let g : Frame Nat := { f with backing := match f.backing with | .lazy src => .lazy src.drain | b => b }
+    (Impl.run g [.fetchone, .fetchall]).2 = [.one none, .many []] := by decide
 
 /-! ### the lazy views as chunk sources -/
 
@@ -443,7 +597,8 @@ descendants and with fetches and *appends* on those — what its fetch calls ret
 machine returns for its own operations: a prefix of its rows, and it refuses only after an append to
 *it*.  No shared list ever arises. -/
 theorem parent_contract_among_derived_frames (d : Nat) (rows : List α) (dicts rel : Bool) (ops : List (SysOp α)) :
-    Sys.trace 0 ops (Sys.run (Sys.init d (Impl.initEager d rows dicts rel)) ops).2 = (run (init d rows) (Sys.proj 0 ops)).2 ∧
+    Sys.trace 0 ops (Sys.run (Sys.init d (Impl.initEager d rows dicts rel)) ops).2
+      = (run (init d rows) (Impl.annot (Impl.initEager d rows dicts rel) (Sys.proj 0 ops))).2 ∧
     (∃ n, n ≤ rows.length ∧
       delivered (Sys.trace 0 ops (Sys.run (Sys.init d (Impl.initEager d rows dicts rel)) ops).2) = rows.take n) ∧
     (Sys.run (Sys.init d (Impl.initEager d rows dicts rel)) ops).1.links = [] := by
@@ -457,7 +612,8 @@ theorem parent_contract_among_derived_frames (d : Nat) (rows : List α) (dicts r
 theorem derived_frame_contract (s : Sys α) (hl : s.links = []) (i : Nat) (how : Deriv) (rows : List α)
     (ops : List (SysOp α)) (hd : (Sys.step s (.derive i how rows)).2 = .unit) :
     Sys.trace s.frames.length ops (Sys.run (Sys.step s (.derive i how rows)).1 ops).2
-      = (run (init s.default rows) (Sys.proj s.frames.length ops)).2 ∧
+      = (run (init s.default rows) (Impl.annot (Impl.initEager s.default rows false
+          ((s.frames[i]?.map (·.schemaRel)).getD false)) (Sys.proj s.frames.length ops))).2 ∧
     ∃ n, n ≤ rows.length ∧
       delivered (Sys.trace s.frames.length ops (Sys.run (Sys.step s (.derive i how rows)).1 ops).2) = rows.take n := by
   cases hi : s.frames[i]? with
@@ -483,7 +639,8 @@ theorem derived_view_contract (s : Sys α) (hl : s.links = []) (i : Nat) (tables
     (ops : List (SysOp α)) (hd : (Sys.step s (.deriveLazy i tables)).2 = .unit)
     (hops : ∀ op ∈ Sys.proj s.frames.length ops, LazyOk op = true) :
     Sys.trace s.frames.length ops (Sys.run (Sys.step s (.deriveLazy i tables)).1 ops).2
-      = (run (init s.default (chunkRows tables none)) (Sys.proj s.frames.length ops)).2 ∧
+      = (run (init s.default (chunkRows tables none))
+          (Impl.annot (Impl.initLazy s.default tables none false) (Sys.proj s.frames.length ops))).2 ∧
     ∃ n, n ≤ (chunkRows tables none).length ∧
       delivered (Sys.trace s.frames.length ops (Sys.run (Sys.step s (.deriveLazy i tables)).1 ops).2)
         = (chunkRows tables none).take n := by
